@@ -115,8 +115,10 @@ func (h *Session) findOrCreateHostWithLock(addr Addr) (host *Host, found bool) {
 	//optimise the common path
 	h.mutex.RLock()
 	if host, found = h.HostTable.Table[addr.IP]; found && bytes.Equal(host.MACEntry.MAC, addr.MAC) {
+		host.MACEntry.Row.Lock() // purge reads LastSeen under the row lock
 		host.LastSeen = now
 		host.MACEntry.LastSeen = now
+		host.MACEntry.Row.Unlock()
 		h.mutex.RUnlock()
 		return host, true
 	}
@@ -129,7 +131,9 @@ func (h *Session) findOrCreateHostWithLock(addr Addr) (host *Host, found bool) {
 	// if host exist in table but has different mac address,
 	// we need to remove the existing link host->mac and create a fresh link.
 	if host != nil {
+		host.MACEntry.Row.RLock()
 		Logger.Msg("error mac address differ - duplicated IP?").Struct(addr).Struct(host).IP("iplookup", addr.IP).Write()
+		host.MACEntry.Row.RUnlock()
 		h.printHostTable()
 		h.deleteHost(addr.IP)
 		// TODO: previous host is offline then???
@@ -142,16 +146,17 @@ func (h *Session) findOrCreateHostWithLock(addr Addr) (host *Host, found bool) {
 	host = &Host{Addr: Addr{IP: addr.IP, MAC: macEntry.MAC}, MACEntry: macEntry, Online: false} // set to false to trigger Online transition
 	host.dirty = true
 	host.Manufacturer = FindManufacturer(macEntry.MAC)
-	if host.Manufacturer != "" && host.Manufacturer != host.MACEntry.Manufacturer {
-		host.MACEntry.Manufacturer = host.Manufacturer
-	}
 	host.HuntStage = StageNormal
 	host.LastSeen = now
-	host.MACEntry.LastSeen = now
 	h.HostTable.Table[addr.IP] = host
 
-	// link host to macEntry
-	macEntry.Row.Lock() // the host list is iterated under the row lock
+	// update the mac entry and link host to it; the entry's fields and its host list are
+	// read under the row lock
+	macEntry.Row.Lock()
+	if host.Manufacturer != "" && host.Manufacturer != macEntry.Manufacturer {
+		macEntry.Manufacturer = host.Manufacturer
+	}
+	macEntry.LastSeen = now
 	macEntry.HostList = append(macEntry.HostList, host)
 	macEntry.Row.Unlock()
 	return host, false
